@@ -155,11 +155,11 @@ def _enabled(kinds):
     return st.lists(st.sampled_from(kinds), min_size=3, max_size=10)
 
 
-def _specs(max_blocks):
+def _specs(max_blocks, min_assems=1):
     """Reactor specs; one in three is a Cartesian core whose grid has a non-zero origin offset (quarter core without a centre
     cell; the blocks of a Cartesian core share that grid object, and the SFP grid is offset as well)."""
-    general = rg.reactor_spec(max_rings=2, max_blocks=max_blocks)
-    offset = rg.reactor_spec(geoms=("cartesian",), symmetries=["quarter reflective"], max_rings=2, max_blocks=max_blocks)
+    general = rg.reactor_spec(max_rings=2, max_blocks=max_blocks, min_assems=min_assems)
+    offset = rg.reactor_spec(geoms=("cartesian",), symmetries=["quarter reflective"], max_rings=2, max_blocks=max_blocks, min_assems=min_assems)
     return st.one_of(general, general, offset)
 
 
@@ -167,7 +167,7 @@ def retain_strategy(tier):
     return st.fixed_dictionaries(
         {
             "spec": _specs(3),
-            "enabled": _enabled(RETAIN_KINDS).map(lambda kinds: kinds + ["keptassign", "keptassign", "pitch", "pitch", "height"]),
+            "enabled": _enabled(RETAIN_KINDS).map(lambda kinds: kinds + ["keptassign", "keptassign", "pitch", "pitch", "height", "height"]),
             "pre": st.lists(_op(), max_size=3),
             "preset": st.one_of(st.none(), _val()),  # give every array/list/dict parameter of the tables a value first
             "program": st.lists(st.one_of(_scope(1), _scope(1), _scope(1), _op()), min_size=1, max_size=3),
@@ -709,15 +709,15 @@ class Interp:
         """The axial mesh of an assembly changes through armi's own calls: Block.setHeight (-> calculateZCoords),
         Assembly.setBlockHeights / setBlockMesh, one prescribed axial expansion."""
         how = op["n"] % 6
-        if how >= 3:
+        if how >= 2:
             ia = self.pick("assembly", op["obj"], base, pred=lambda a: len(a) > 0)
             if ia is not None:
                 a = self.objs[ia]
                 f = 0.6 + 0.4 * op["factor"]
-                if how == 3:
+                if how == 2:
                     a.setBlockHeights([round(b.getHeight() * f, 4) for b in a])
                     self.counts["height:setBlockHeights"] += 1
-                elif how == 4:
+                elif how == 3:
                     tops, z = [], 0.0
                     for b in a:
                         z += b.getHeight() * f
@@ -1137,7 +1137,7 @@ def copies_strategy(tier):
     )
     return st.fixed_dictionaries(
         {
-            "spec": _specs(2),
+            "spec": _specs(2, min_assems=2),
             "enabled": _enabled(COPY_KINDS),
             "pre": st.lists(_op(), max_size=6),
             "steps": st.lists(step, min_size=1, max_size=4),
@@ -1206,6 +1206,9 @@ def copies_execute(case):
             break
         r.core.removeAssembly(assems[k % len(assems)], discharge=True)
         out.label("pool-occupied")
+    if len(r.excore["sfp"]) if spec.get("sfp") else False:
+        # the first copy is then one of the whole reactor, pool contents included
+        case = dict(case, steps=[dict(case["steps"][0], level="reactor", src=0)] + list(case["steps"][1:]))
     enabled = case["enabled"]
     db = None
     fn = "c16_%d.h5" % os.getpid()  # relative: lives in the per-process scratch directory
